@@ -893,7 +893,15 @@ func (s *session) redialForClient(oldConn net.Conn) bool {
 	if s.redialForClientLocked == nil {
 		return false
 	}
-	s.lock.Lock()
+	// A session that is being closed locally does not redial. Close holds
+	// the lock while it waits for the calls and handlers in flight, one of
+	// which may be the caller: do not queue up behind it.
+	for !s.lock.TryLock() {
+		if status := s.getStatus(); status == statusActiveClosing || status == statusActiveClosed {
+			return false
+		}
+		time.Sleep(time.Millisecond)
+	}
 	defer s.lock.Unlock()
 	// Avoid repeated calls from write and readDisconnected methods
 	if oldConn != s.getConn() {
